@@ -31,6 +31,7 @@ Res == D!Resolve(RT_Calls[ci].f, ArgsOf(RT_Calls[ci]))
 Emit == IF DoEmit
         THEN LET r == Res IN
              PrintT(ToJson([ci |-> ci, tag |-> r.tag, rule |-> r.rule, cands |-> r.cands,
+                            structural |-> (r.rule \in RT_Structural),
                             minimal |-> D!Sorted(D!Minimal(RT_Calls[ci].f, ArgsOf(RT_Calls[ci])))]))
         ELSE TRUE
 AllOk == Res.tag = "ok"
